@@ -311,6 +311,9 @@ class BuiltinMixin:
             return out
         if isinstance(v, NoneV):
             return [self.raise_(st, "TypeError", "int() argument must be a string or a number")]
+        if isinstance(v, FloatV):
+            # int(x) truncates toward zero
+            return [Ev(st, IntV(z3.If(v.t >= 0, z3.ToInt(v.t), -z3.ToInt(-v.t))))]
         raise OutOfReach("int() of %s" % v.kind)
 
     def bi_float(self, st, args, kwargs, fx):
